@@ -160,7 +160,7 @@ def gen_key_ast(rng):
     if f is not None:
         k["format"] = f
     if rng.random() < 0.3:
-        k["versions"] = [rng.choice([1, 2, 5, 255]) for _ in range(rng.randint(1, 4))]
+        k["versions"] = [rng.choice([1, 2, 5, 255, 0, 1]) for _ in range(rng.randint(1, 4))]
     return k
 
 
